@@ -128,6 +128,17 @@ def stream_supersets(ctx):
             variants.append((layout, dict(t, cols=cols, names=names), pos))
         for layout, tv, pos in variants:
             Fv, _ = TS.build_real(tv)
+            if R.random() < 0.6:
+                # other releases from the same superset forest first: combinations that overlap the base columns and contain an extra column
+                import itertools
+                nv = len(tv["names"])
+                others = [c for k in (2, 3) for c in itertools.combinations(range(nv), k) if set(c) & set(pos) and not set(c) <= set(pos)]
+                for c in R.sample(others, min(len(others), 3)):
+                    try:
+                        harvest(Fv.get_tree(c), random.Random(7))
+                    except ZeroDivisionError:
+                        pass
+                layout = layout + "+other-releases-first"
             for comb0 in [(0,), (1,), (0, 1)]:
                 combv = tuple(pos[c] for c in comb0)
                 preserving = list(combv) == sorted(combv)
